@@ -75,6 +75,13 @@ impl LinkProbe {
         }
     }
 
+    /// what the transport reader does when a session ends (`link::Layer::reset` -> `Reader::reset`): the next
+    /// `feed` belongs to a new session
+    pub fn reset_reader(&mut self) {
+        self.reader.reset();
+        self.dead = false;
+    }
+
     /// one write to the pipe, then `read_frame` is called until it would block.
     /// Returns the canonical event lines.
     pub async fn feed(&mut self, chunk: &[u8]) -> Vec<String> {
@@ -246,7 +253,14 @@ impl TransportProbe {
             let r = self.drain_peer().await;
             Self::push_replies(&mut out, &r);
             match res {
-                None => break,
+                None => {
+                    // the session's idle loop polls `pop_request` on every iteration, also when the read did
+                    // not complete: nothing is ready, and asking must not disturb an assembly in progress
+                    if self.reader.pop().is_some() {
+                        out.push("pop-unexpected".to_string());
+                    }
+                    break;
+                }
                 Some(Err(e)) => {
                     out.push(format!("err {}", link_error_str(&e)));
                     self.dead = true;
